@@ -51,6 +51,7 @@ class RecordDecl:
     mutable: dict = field(default_factory=dict)
     immutable: dict = field(default_factory=dict)
     pure: dict = field(default_factory=dict)
+    ctor_kwargs: bool = False                          # constructor takes the immutable fields as keyword arguments
     ctor: dict = field(default_factory=dict)          # initial values of mutable fields for `Cls()`; presence enables the constructor
 
 
@@ -77,6 +78,7 @@ class Contract:
     locals: dict = field(default_factory=dict)        # local name -> type string where inference needs help
     abstract: bool = False                    # contract of an abstract method (no body to verify)
     varargs: bool = False                     # extra positional/keyword arguments at call sites are ignored (opaque)
+    at_call: dict = field(default_factory=dict)       # callee name -> [Clause] asserted in the caller just before each such call
     cand_locals: tuple = ()                   # locals that candidates may mention besides __done__/__ret__
     ghost_yield: dict = field(default_factory=dict)
     rely_ensures: list = field(default_factory=list)
@@ -110,6 +112,7 @@ class Registry:
         self.isinstance_tests: dict[tuple, str] = {}   # (sort, class name) -> spec expression over x
         self.identity_sorts: tuple = ('Inst',)
         self.file_sorts: tuple = ()
+        self.view_names: set = set()
         self.const_names: dict = {}               # module-level names used as opaque values: name -> sort
 
     # -- declaration helpers (used by sidecar files) -----------------------
@@ -133,7 +136,31 @@ class Registry:
     def cls(self, key, **kw):
         kw['invariant'] = _clauses(kw.get('invariant'))
         self.classes[key] = ClassDecl(key=key, **kw)
+        self.view_names |= set(kw.get('views', {}))
         return self.classes[key]
+
+    def implements(self, key, base, **kw):
+        """Contract of an implementing method = the abstract method's contract (same clause texts, read through
+        the implementing class's views) plus implementation-specific frame / candidates / extra clauses."""
+        import copy as _copy
+        b = self.contracts[base]
+        c = _copy.deepcopy(b)
+        c.key = key
+        c.abstract = False
+        c.self_type = kw.pop('self_type')
+        c.frame = list(kw.pop('frame', []))
+        c.candidates = _clauses(kw.pop('candidates', []))
+        c.requires = c.requires + _clauses(kw.pop('extra_requires', []))
+        c.ensures = c.ensures + _clauses(kw.pop('extra_ensures', []))
+        for k, v in kw.items():
+            if k == 'raises':
+                c.raises = {kk: _clauses(vv) for kk, vv in v.items()}
+            elif k in ('ensures', 'requires', 'yields', 'rely_ensures'):
+                setattr(c, k, _clauses(v))
+            else:
+                setattr(c, k, v)
+        self.contracts[key] = c
+        return c
 
     def record(self, sort, **kw):
         self.records[sort] = RecordDecl(sort=sort, **kw)
@@ -142,7 +169,7 @@ class Registry:
         return self.records[sort]
 
     def contract(self, key, **kw):
-        for k in ('requires', 'ensures', 'candidates', 'yields'):
+        for k in ('requires', 'ensures', 'candidates', 'yields', 'rely_ensures'):
             kw[k] = _clauses(kw.get(k))
         kw['raises'] = {k: _clauses(v) for k, v in (kw.get('raises') or {}).items()}
         if isinstance(kw.get('serves'), str):
